@@ -86,6 +86,19 @@ def check_c15(ck, tier, replay=None):
         it.call('@h_thole', [a, b, dA, dB, ex, out]); return read_doubles(it, out, 9)
     res, st = explore(mod, models.all_models(), tb, parsed=parsed); ck.stubs |= st['models_used']
     ck.add_witness('Thole tensor: damped and undamped branch explored (%d paths)' % len(res), len(res) == 2)
+    # exchange of the two sites: T(B,A) = T(A,B)^T for different polarisabilities
+    def tb2(it):
+        it.assume(z3.And(dA > 0, dB > 0, ex > 0))
+        a = alloc_doubles(it, 'pA', zero3); b = alloc_doubles(it, 'pB', x); out = alloc_doubles(it, 'out', [F(0)] * 9)
+        it.call('@h_thole', [b, a, dB, dA, ex, out]); return read_doubles(it, out, 9)
+    res2, _ = explore(mod, models.all_models(), tb2, parsed=parsed)
+    for (it1, T1), (it2, T2) in itertools.product(res, res2):
+        pc = list(it1.pc) + list(it2.pc)
+        if smt.check(smt.purify(pc), 20)[0] == 'unsat': continue      # different damping branches cannot both be taken
+        A = Algebra(nonneg_check=nonneg(pc))
+        for i in range(3):
+            for j in range(3):
+                A.prove_equal(ck, 'Thole tensor under exchange of the sites: T(B,A)[%d][%d] = T(A,B)[%d][%d] (different polarisabilities)' % (i, j, j, i), A.rf(T2[3 * i + j]), A.rf(T1[3 * j + i]), pc, TO)
     for it, T in res:
         pc = list(it.pc); A = Algebra(nonneg_check=nonneg(pc))
         Tr = [A.rf(v) for v in T]
